@@ -54,6 +54,28 @@ def _moved_items(d):
     return out
 
 
+def _renamed_fns(d):
+    _moved_items({"crate": d["crate"], "adts": [], "bodies": []})      # make sure _ITEMS is loaded
+    name = d["crate"]
+    sigs = (_ITEMS.get("sigs") or {}).get(name) or {}
+    if not sigs:
+        return []
+    now = {}
+    for b in d["bodies"]:
+        if b["kind"] in ("Fn", "AssocFn") and b.get("sig"):
+            now[strip_generics(b["path"])] = "(%s) -> %s" % (", ".join(b["sig"]["inputs"]), b["sig"]["output"])
+    gone = [k for k in sigs if k not in now and "{" not in k and "<" not in k]
+    new = [k for k in now if k not in sigs and "{" not in k and "<" not in k]
+    out = []
+    for g in gone:
+        parent = g.rsplit("::", 1)[0]
+        cands = [n for n in new if n.rsplit("::", 1)[0] == parent and now[n] == sigs[g]]
+        rivals = [g2 for g2 in gone if g2.rsplit("::", 1)[0] == parent and sigs[g2] == sigs[g]]
+        if len(cands) == 1 and len(rivals) == 1:
+            out.append((cands[0], g))
+    return out
+
+
 class Crate:
     def __init__(self, path):
         raw = open(path).read()
@@ -67,6 +89,25 @@ class Crate:
             for new, old in sorted(self.moved, key=lambda x: -len(x[0])):
                 raw = re.sub(re.escape(new) + r"(?![A-Za-z0-9_])", old, raw)
             d = json.loads(raw)
+        # a reviewed function that disappeared while exactly one new function with the same parent path and the same signature
+        # appeared was renamed: it keeps its reviewed name
+        self.renamed = _renamed_fns(d)
+        if self.renamed and not os.environ.get("VERIF_NO_INLINE"):
+            for new, old in self.renamed:
+                parent, nl = new.rsplit("::", 1)
+                ol = old.rsplit("::", 1)[1]
+                segs = parent.split("::")
+                gen = r"(?:::<(?:[^<>]|<(?:[^<>]|<[^<>]*>)*>)*>)?"
+                pat = "::".join(re.escape(x) for x in segs[:-1]) + ("::" if len(segs) > 1 else "") + re.escape(segs[-1]) + gen + "::"
+                raw = re.sub("(" + pat + ")" + re.escape(nl) + r"(?![A-Za-z0-9_])", lambda m: m.group(1) + ol, raw)
+            d = json.loads(raw)
+            olds = {o for n, o in self.renamed}
+            for b in d["bodies"]:
+                for blk in b["blocks"]:
+                    t = blk["term"]
+                    f = t.get("f") if t.get("k") == "call" else None
+                    if f and (strip_generics(f["path"]) in olds or (f.get("resolved") and strip_generics(f["resolved"]) in olds)):
+                        f["name"] = strip_generics(f["path"]).rsplit("::", 1)[-1]
         self.name = d["crate"]
         self.is_test = d["is_test"]
         self.cfg = d["cfg"]
